@@ -58,6 +58,9 @@ type dirState struct {
 	short   string
 	last    atomic.Int64 // ns since start of the last byte observed
 
+	// connection i has delivered its first bytes (it is being served)
+	first []atomic.Bool
+
 	// timed cases
 	sent     []atomic.Int64 // bytes connection i's writer has handed to Write (and Write accepted) so far
 	wdone    []atomic.Bool  // connection i's writer has stopped
@@ -113,6 +116,7 @@ func planDir(ctx *core.Ctx, name string, limit, other int64, c xferCase, explici
 	d.gotN = make([]int64, k)
 	d.gotHash = make([][32]byte, k)
 	d.sent = make([]atomic.Int64, k)
+	d.first = make([]atomic.Bool, k)
 	d.wdone = make([]atomic.Bool, k)
 	for i := 0; i < k; i++ {
 		d.per[i] = d.total / int64(k)
@@ -183,6 +187,9 @@ func readerLoop(d *dirState, idx int, r io.Reader, want int64, bufSize int, star
 		n, err := r.Read(buf[:lim])
 		t1 := time.Since(base)
 		if n > 0 {
+			if got == 0 && idx < len(d.first) {
+				d.first[idx].Store(true)
+			}
 			h.Write(buf[:n])
 			got += int64(n)
 			ts := int64(time.Since(start))
@@ -221,6 +228,39 @@ type xferRun struct {
 	mu       sync.Mutex
 	fatal    string // the rig could not be set up (not a verdict)
 	crash    string
+	closedAt atomic.Int64 // lifecycle cases: ns since base at which the listener was closed / the shutdown started (0 = not yet)
+}
+
+// whenInFlight runs f once every connection of every running direction has delivered data and
+// c.CloseAtMs ms have passed since the start (at the latest 5 s after the start), unless stop is closed first.
+func (r *xferRun) whenInFlight(stop <-chan struct{}, f func()) {
+	at := r.start.Add(time.Duration(r.c.CloseAtMs) * time.Millisecond)
+	latest := r.start.Add(5 * time.Second)
+	for {
+		select {
+		case <-stop:
+			return
+		case <-time.After(2 * time.Millisecond):
+		}
+		now := time.Now()
+		if now.Before(at) {
+			continue
+		}
+		served := true
+		for _, d := range []*dirState{r.down, r.up} {
+			if d == nil {
+				continue
+			}
+			for i := range d.first {
+				served = served && d.first[i].Load()
+			}
+		}
+		if served || now.After(latest) {
+			r.closedAt.Store(int64(time.Since(r.base)))
+			f()
+			return
+		}
+	}
 }
 
 func (r *xferRun) setFatal(s string) {
@@ -308,6 +348,12 @@ func runListenerMode(run *xferRun) {
 		goSafe(func() { defer writers.Done(); f() })
 	}
 	run.start = time.Now()
+	if c.CloseAtMs > 0 {
+		// the LISTENER is closed while its accepted connections go on moving data
+		stopClose := make(chan struct{})
+		defer close(stopClose)
+		go run.whenInFlight(stopClose, func() { rl.Close() })
+	}
 	for i := 0; i < c.Conns; i++ {
 		i := i
 		if run.down != nil {
@@ -457,6 +503,9 @@ func runProxyMode(run *xferRun) {
 	cfg.ProxyLocalhost = forwarder.AllowProxyLocalhost
 	cfg.WriteTimeout = time.Duration(c.WriteTimeoutMs) * time.Millisecond
 	cfg.ReadTimeout = time.Duration(c.ReadTimeoutMs) * time.Millisecond
+	if c.CloseAtMs > 0 {
+		cfg.ShutdownTimeout = 10 * time.Minute // the drain outlasts every transfer
+	}
 	p, err := forwarder.NewHTTPProxy(cfg, nil, nil, nil, fwdlog.NopLogger, nil)
 	if err != nil {
 		run.setFatal("NewHTTPProxy: " + err.Error())
@@ -500,6 +549,13 @@ func runProxyMode(run *xferRun) {
 		}()
 	}
 	run.start = time.Now()
+	if c.CloseAtMs > 0 {
+		// graceful shutdown (Run's context is cancelled: the listeners are closed first, then the connections
+		// are drained) while the transfers are in flight
+		stopClose := make(chan struct{})
+		defer close(stopClose)
+		go run.whenInFlight(stopClose, cancel)
+	}
 	switch c.Mode {
 	case "proxy-connect":
 		for i := 0; i < c.Conns; i++ {
@@ -721,7 +777,7 @@ func evalDir(ctx *core.Ctx, run *xferRun, d *dirState) {
 		if cum > allowed {
 			ctx.SpecFail("bytes moved by time t ≤ burst + R·t + k·w, summed over the listener's connections ("+d.name+")", class, c,
 				fmt.Sprintf("%d bytes observed %v after the start; allowed %d (R=%d B/s, B=%d, k=%d, w=%d); whole transfer of %d bytes took %v",
-					cum, time.Duration(e.t), allowed, d.limit, d.burst, k, w, moved, dur)+timedNote(c),
+					cum, time.Duration(e.t), allowed, d.limit, d.burst, k, w, moved, dur)+timedNote(c)+run.lifeNote(),
 				"throughput bound exceeded")
 			return
 		}
@@ -750,14 +806,14 @@ func evalDir(ctx *core.Ctx, run *xferRun, d *dirState) {
 	if minDur < 0 {
 		minDur = 0
 	}
-	noteMeasurement(ctx, c.timed(), fmt.Sprintf("%s %s read-limit=%d write-limit=%d conns=%d call≤%d%s: %d bytes in %v (bound: ≥ %v; closest to the bound: %d bytes below)",
-		c.Mode, d.name, c.ReadLimit, c.WriteLimit, c.Conns, w, timedNote(c), moved, dur.Round(time.Millisecond), minDur.Round(time.Millisecond), margin))
+	noteMeasurement(ctx, c.timed(), c.CloseAtMs > 0, fmt.Sprintf("%s %s read-limit=%d write-limit=%d conns=%d call≤%d%s: %d bytes in %v (bound: ≥ %v; closest to the bound: %d bytes below)",
+		c.Mode, d.name, c.ReadLimit, c.WriteLimit, c.Conns, w, timedNote(c)+run.lifeNote(), moved, dur.Round(time.Millisecond), minDur.Round(time.Millisecond), margin))
 	// the same clause decided by the model on the whole transfer
 	ans := ctx.Model.MustAsk("C20", "holds", strconv.FormatInt(d.limit, 10), strconv.FormatInt(d.burst, 10), strconv.FormatInt(k, 10),
 		strconv.FormatInt(w, 10), strconv.FormatInt(max64(moved-eps, 0), 10), "0", strconv.FormatInt(int64(dur)+jitterNs(int64(dur)), 10))
 	if ans != "true" {
 		ctx.SpecFail("bytes moved in [t0,t1] ≤ burst + R·(t1−t0) + k·w ("+d.name+")", class, c,
-			fmt.Sprintf("%d bytes in %v (R=%d B/s, B=%d, k=%d, w=%d)", moved, dur, d.limit, d.burst, k, w), ans)
+			fmt.Sprintf("%d bytes in %v (R=%d B/s, B=%d, k=%d, w=%d)", moved, dur, d.limit, d.burst, k, w)+run.lifeNote(), ans)
 		return
 	}
 	// single connection on the harness-driven listener: every call returned no earlier than the
@@ -767,7 +823,13 @@ func evalDir(ctx *core.Ctx, run *xferRun, d *dirState) {
 		for i, cl := range calls {
 			ops[i] = [2]int64{cl.start, int64(cl.n)}
 		}
-		waits, _ := modelReserve(ctx, d.limit, d.burst, ops)
+		var waits []int64
+		if c.CloseAtMs > 0 {
+			// the model's history with the lifecycle event in its place (waits on the context Conn uses)
+			waits = modelHistory(ctx, d.limit, d.burst, ops, run.closedAt.Load(), c.Mode)
+		} else {
+			waits, _ = modelReserve(ctx, d.limit, d.burst, ops)
+		}
 		for i, cl := range calls {
 			if waits[i] < 0 {
 				continue
@@ -788,12 +850,20 @@ var (
 	measMu    sync.Mutex
 	meas      []string
 	measTimed []string
+	measLife  []string
 )
 
 // noteMeasurement keeps a few measured transfers for the evidence file.
-func noteMeasurement(ctx *core.Ctx, timed bool, s string) {
+func noteMeasurement(ctx *core.Ctx, timed, lifecycle bool, s string) {
 	measMu.Lock()
 	defer measMu.Unlock()
+	if lifecycle {
+		if len(measLife) < 12 {
+			measLife = append(measLife, s)
+			ctx.Extra("throttled_transfers_across_listener_close_or_shutdown_measured", append([]string(nil), measLife...))
+		}
+		return
+	}
 	if timed {
 		if len(measTimed) < 12 {
 			measTimed = append(measTimed, s)
@@ -812,6 +882,63 @@ func max64(a, b int64) int64 {
 		return a
 	}
 	return b
+}
+
+// lifeNote describes the lifecycle event of a lifecycle case (empty otherwise).
+func (r *xferRun) lifeNote() string {
+	if r.c.CloseAtMs <= 0 {
+		return ""
+	}
+	what := "graceful shutdown started (Run's context cancelled, listeners closed, connections draining)"
+	if r.c.Mode == "listener" {
+		what = "ratelimit.Listener.Close called"
+	}
+	at := r.closedAt.Load()
+	if at == 0 {
+		return " [" + what + ": not reached]"
+	}
+	return fmt.Sprintf(" [%s %v after the start, transfers in flight]", what, (time.Duration(at) - r.start.Sub(r.base)).Round(time.Millisecond))
+}
+
+// modelHistory: waits of the calls (start ns, n) of one connection in a history in which the listener is
+// closed (listener mode) resp. Run's context is cancelled and the listener closed (proxy modes) at closedAt.
+func modelHistory(ctx *core.Ctx, rate, burst int64, ops [][2]int64, closedAt int64, mode string) []int64 {
+	ev := "C"
+	if mode != "listener" {
+		ev = "X;C"
+	}
+	var evs []string
+	placed := closedAt == 0
+	for _, o := range ops {
+		if !placed && o[0] >= closedAt {
+			evs = append(evs, ev)
+			placed = true
+		}
+		evs = append(evs, fmt.Sprintf("%d,0,%d", o[0], o[1]))
+	}
+	if !placed {
+		evs = append(evs, ev)
+	}
+	ans := strings.Fields(ctx.Model.MustAsk("C20", "history", strconv.FormatInt(rate, 10), strconv.FormatInt(burst, 10), "conn", "1", strings.Join(evs, ";")))
+	if len(ans) != 2 || ans[0] != "ok" {
+		core.Fatalf("C20: model history answer %v", ans)
+	}
+	rets := core.SplitList(ans[1])
+	if len(rets) != len(ops) {
+		core.Fatalf("C20: model history answered %d return times for %d calls", len(rets), len(ops))
+	}
+	waits := make([]int64, len(ops))
+	for i, a := range rets {
+		v, err := strconv.ParseInt(a, 10, 64)
+		if err != nil {
+			core.Fatalf("C20: model history return time %q", a)
+		}
+		waits[i] = v - ops[i][0]
+		if ops[i][1] > burst {
+			waits[i] = -1
+		}
+	}
+	return waits
 }
 
 // timedNote describes the deadlines of a timed case (empty otherwise).
@@ -856,6 +983,9 @@ func checkXfer(ctx *core.Ctx, c xferCase) {
 	if c.Conns < 1 || c.Conns > 64 || c.Chunk < 1 || c.Millis < 0 || c.ReadLimit < 0 || c.WriteLimit < 0 {
 		core.Fatalf("C20: malformed xfer case %+v", c)
 	}
+	if c.CloseAtMs < 0 || (c.CloseAtMs > 0 && c.timed()) {
+		core.Fatalf("C20: malformed lifecycle xfer case %+v", c)
+	}
 	if c.timed() {
 		// a timed case throttles every direction it runs; deadlines come from one source; a tunnel
 		// only carries the read deadline
@@ -896,6 +1026,16 @@ func checkXfer(ctx *core.Ctx, c xferCase) {
 	if c.Mode == "listener" {
 		ctx.Count(fmt.Sprintf("xfer/chunk=%dKiB", c.Chunk/kib))
 	}
+	if c.CloseAtMs > 0 {
+		if c.Mode == "listener" {
+			ctx.Count("xfer/lifecycle/listener-closed-with-transfers-in-flight")
+		} else {
+			ctx.Count("xfer/lifecycle/" + c.Mode + "/graceful-shutdown-with-transfers-in-flight")
+		}
+		if run.closedAt.Load() == 0 {
+			ctx.Count("xfer/lifecycle/event-not-reached")
+		}
+	}
 	switch {
 	case c.DeadlineMs > 0:
 		ctx.Count(fmt.Sprintf("xfer/deadlines/listener/%s/%dms-before-every-call", c.DeadlineAPI, c.DeadlineMs))
@@ -930,6 +1070,9 @@ func jsonKey(c xferCase) (string, error) {
 	key := fmt.Sprintf("%s|%d|%d|%d|%d|%d|%d|%d|%v|%v", c.Mode, c.ReadLimit, c.WriteLimit, c.Conns, c.Chunk, c.Millis, c.DownBytes, c.UpBytes, c.NoDown, c.NoUp)
 	if c.timed() {
 		key += fmt.Sprintf("|dl=%d/%s|wt=%d|rt=%d", c.DeadlineMs, c.DeadlineAPI, c.WriteTimeoutMs, c.ReadTimeoutMs)
+	}
+	if c.CloseAtMs > 0 {
+		key += fmt.Sprintf("|close=%d", c.CloseAtMs)
 	}
 	return key, nil
 }
@@ -1038,8 +1181,43 @@ func genXfers(ctx *core.Ctx) []xferCase {
 		cases = append(cases, xferCase{Kind: "xfer", Mode: mode, ReadLimit: p.r, WriteLimit: p.w, Conns: r.Range(1, 3),
 			Chunk: 32 * kib, Millis: r.Range(loMs, hiMs), Seed: r.U64()})
 	}
-	// the deadline-armed cases are the longest: start them first
-	return append(genTimed(ctx, r), cases...)
+	// the deadline-armed and the lifecycle cases are the longest: start them first
+	// (the lifecycle cases draw from their own generator so that the cases above stay what they were)
+	return append(append(genTimed(ctx, r), genLifecycle(ctx, r.Sub())...), cases...)
+}
+
+// genLifecycle: transfers of burst + ≥ 3 s of rate that are in flight when the listener is closed (listener
+// mode) resp. the graceful shutdown starts (proxy modes: Run's context cancelled, long --shutdown-timeout);
+// the accepted connections are measured for the ≥ 3 s that follow.
+func genLifecycle(ctx *core.Ctx, r *core.Rand) []xferCase {
+	var cases []xferCase
+	rates := []int64{mib, 2 * mib}
+	if !ctx.Quick() {
+		rates = append(rates, 512*kib, 4*mib)
+	}
+	mk := func(mode string, rl, wl int64, conns int, noUp, noDown bool) xferCase {
+		closeAt := r.Range(300, 700)
+		return xferCase{Kind: "xfer", Mode: mode, ReadLimit: rl, WriteLimit: wl, Conns: conns, Chunk: core.Pick(r, []int{16 * kib, 32 * kib, 64 * kib}),
+			Millis: closeAt + r.Range(3000, 3300), CloseAtMs: closeAt, NoUp: noUp, NoDown: noDown, Seed: r.U64()}
+	}
+	rounds := ctx.N(1, 3)
+	for round := 0; round < rounds; round++ {
+		// one connection (its call trace is held against the model's history), one direction
+		if r.Bool() {
+			cases = append(cases, mk("listener", core.Pick(r, rates), 0, 1, true, false))
+		} else {
+			cases = append(cases, mk("listener", 0, core.Pick(r, rates), 1, false, true))
+		}
+		cases = append(cases, mk("listener", core.Pick(r, rates), core.Pick(r, rates), r.Range(2, 3), false, false))
+		cases = append(cases, mk("proxy-http", core.Pick(r, rates), core.Pick(r, rates), r.Range(1, 2), false, false))
+		cases = append(cases, mk("proxy-connect", core.Pick(r, rates), core.Pick(r, rates), r.Range(1, 2), false, false))
+		if !ctx.Quick() {
+			cases = append(cases, mk("proxy-http", core.Pick(r, rates), 0, r.Range(2, 4), true, false))
+			cases = append(cases, mk("proxy-connect", 0, core.Pick(r, rates), r.Range(1, 3), false, true))
+			cases = append(cases, mk("listener", core.Pick(r, rates), core.Pick(r, rates), 1, false, false))
+		}
+	}
+	return cases
 }
 
 func runXfers(ctx *core.Ctx, cases []xferCase) {
